@@ -764,6 +764,12 @@ func runC14(r *Rand, tier string, o *Out) {
 		o.Count("scenario:subscriber-leaves-during-an-announcement")
 	}
 	// one client follows two properties and gives one up
+	for _, v := range []string{"-1", "9", "-5", "12"} {
+		if out := o.Do("P", "pr.tworoutes "+v, true); out != "ok" {
+			o.Fail("two writers on two routes to the object: "+strings.SplitN(strings.TrimPrefix(out, "fail:"), " ", 2)[0], "pr.tworoutes "+v+" => "+out)
+		}
+		o.Count("scenario:two-routes")
+	}
 	if out := o.Do("P", "pr.twosubs", true); out != "level=1 gain=2 after-cancel level=3 level=4" {
 		o.Fail("change events: a client that follows two properties and gives one up", "pr.twosubs => "+out)
 	}
